@@ -1088,6 +1088,56 @@ pub fn lane_big_stdin(seed: u64) -> Vec<Scenario> {
     out
 }
 
+/// single-script mode: a command ends the script with `exit c`; the test cases after it never
+/// ran - whatever their expectations are (nothing printed, exit code c expected ...)
+pub fn lane_script_exit(seed: u64) -> Vec<Scenario> {
+    let mut out = vec![];
+    let mut g = G::new(seed ^ 0x5e17);
+    for code in [0i32, 3, 80, 255] {
+        for pos in 0..3usize {
+            for later in ["silent-expects-code", "silent-expects-0", "normal"] {
+                let mut sim = base_sim(g.rng.next_u64());
+                let mut tests = vec![];
+                for k in 0..4 {
+                    let plan = if k == pos {
+                        Plan::new(Fate::Code { code, expected: Some(code), exit_shell: true })
+                    } else if k > pos {
+                        match later {
+                            "silent-expects-code" => {
+                                let mut p = Plan::new(Fate::Code { code, expected: Some(code), exit_shell: false });
+                                p.lines = 0;
+                                p
+                            }
+                            "silent-expects-0" => {
+                                let mut p = Plan::new(Fate::Pass);
+                                p.lines = 0;
+                                p
+                            }
+                            _ => Plan::new(Fate::Pass),
+                        }
+                    } else {
+                        Plan::new(Fate::Pass)
+                    };
+                    tests.push(g.test(&plan, &mut sim.programs));
+                }
+                let mut sc = Scenario {
+                    lane: format!("script-exit/code{}/pos{}/{}", code, pos, later),
+                    tier: Tier::Lib,
+                    script_mode: true,
+                    docs: vec![doc("exit.md", Format::Md, tests)],
+                    cli: Cli::default(),
+                    sim,
+                    pretty: false,
+                    check: vec!["C05".into(), "C15".into(), "C20".into(), "C13".into()],
+                };
+                fill_expectations(&mut sc, &mut g);
+                out.push(sc);
+            }
+        }
+    }
+    out
+}
+
 pub fn lane_early_exit(seed: u64) -> Vec<Scenario> {
     let mut out = vec![];
     let mut g = G::new(seed ^ 0xea71);
